@@ -91,6 +91,21 @@ def exec_and_judge(P, ctx, cases, tag):
             shutil.copyfileobj(src, out)
         break
     ctx.setdefault("hangs", {})[tag] = hangs
+    # a library result that crashed its consumer (the harness): taken out of the trace (the trace specifications do not
+    # know the event) and recorded as a rejected case
+    crashes = []
+    with open(tpath) as f:
+        has_crash = any('"ev":"crash"' in line for line in f)
+    if has_crash:
+        kept = tpath + ".nocrash"
+        with open(tpath) as f, open(kept, "w") as out:
+            for line in f:
+                if '"ev":"crash"' in line:
+                    ev = json.loads(line)
+                    crashes.append((ev["case"], ev.get("i", 0), "result_crashes_consumer"))
+                else:
+                    out.write(line)
+        os.replace(kept, tpath)
     if tag == "main":
         # cases the harness could not run because a verification accessor no longer fits the implementation
         with open(tpath) as f:
@@ -102,6 +117,8 @@ def exec_and_judge(P, ctx, cases, tag):
     t = P["trace"]
     rejects, r = core.judge_sharded(ctx["sdir"], t[0], t[1], tpath, ctx["work"], nsh, timeout=ctx["timeout"])
     rejects += [(h, 0, "call_did_not_return") for h in hangs]
+    seen = {c for c, _, _ in rejects}
+    rejects += [x for x in crashes if x[0] not in seen]
     return rejects, r, tpath
 
 
@@ -186,7 +203,8 @@ def run_property(P, tier, seed, replay=None):
                 rj2, _, _ = exec_and_judge(P, ctx, rej_cases, "confirm")
             again = {(cid, reason) for cid, i, reason in rj2}
             for cid, i, reason in rejects:
-                if (cid, reason) in again:
+                if (cid, reason) in again or (P.get("nondeterministic") and reason in ("result_crashes_consumer", "call_did_not_return")):
+                    # (for a schedule-dependent family the recorded crash / hang IS the observation: it is not in the judge's output)
                     confirmed.append((cid, i, reason))
                 else:
                     raise Infra("reject of case %d (%s) did not reproduce on re-execution" % (cid, reason))
